@@ -20,7 +20,9 @@ RULE = ("barcodes generated from one PRNG: 1-4 diagrams of 0-12 bars, coordinate
         "lists of nested lists / tuples, bars born after dying in unsigned dtypes) compared with the definition on the "
         "same numbers; non-trivial = at least one diagram with >=2 finite bars; distinct by digest of (flags, diagrams)")
 ASSUMPTIONS = ["np.log/np.sum agree with the model's Float.log/left fold to 1e-12 (compared on every case)",
-               "coordinates are finite or +inf (the only non-finite value the routine treats); -inf/NaN inputs are outside the model"]
+               "coordinates are finite or +inf (the only non-finite value the routine treats); -inf/NaN inputs are outside the model",
+               "behaviour the statement leaves open (exception class, keep_inf without val_inf, empty barcode, one bar normalised, a bar "
+               "born at +inf, an extra column) is tied to the model but never reported as a failing input"]
 TOL = 1e-12
 # theorems that carry a clause of the statement (helpers, concrete instances and rfl restatements excluded)
 CORE_THEOREMS = ["H_nonneg", "H_le_log_n", "H_equal_lengths", "H_perm", "H_scale", "lengths_translate", "E1_translate",
@@ -63,6 +65,11 @@ def canon(res):
     return [float(x) for x in v]
 
 
+def claimed(ctx):
+    """number of violations with a claimed failing input (correspondence-only reports do not stop the search)"""
+    return sum(1 for _, found in ctx.violations if found)
+
+
 def pre_build(ctx):
     """source translator (DESIGN.md 3.2): regenerate Generated/SrcEntropy.lean from PERSIM_ROOT's source"""
     py2lean.pre_build(ctx, ("entropy",))
@@ -72,6 +79,7 @@ def run(ctx):
     py2lean.report_broken(ctx, PROP_FILES)
     r = ctx.rng
     cases, lines = [], []
+    reported = set()
     # corpus first
     corpus = [
         ([[[1.0, 2.0]]], False, None, True),                         # n=1 normalised: 0/0
@@ -121,22 +129,31 @@ def run(ctx):
             ctx.count("ok")
             agree = len(code) == len(ans) and all(close(a, b, TOL) for a, b in zip(code, ans))
         if not agree:
-            # correspondence broke: is the *property* violated?  evaluate the definition independently
-            spec = spec_value(dgms, keep, vinf, norm)
-            bad = spec_disagrees(spec, code)
+            # correspondence broke: is the *property* violated?  evaluate the definition independently.  Only what the
+            # statement fixes gives a failing input (see `judge`): the exception class, the value of an empty / one-bar
+            # normalised barcode, keep_inf without a value and bars born at infinity stay correspondence matters.
+            spec, free = spec_value(dgms, keep, vinf, norm)
+            verdict = judge(spec, free, code)
+            ctx.count("correspondence_break:" + verdict)
+            kind = (verdict, (free if isinstance(free, str) else "entries") if verdict == "corr" else None)
+            if verdict != "fail" and kind in reported:
+                continue                 # one report per kind of property-irrelevant difference; keep searching
+            reported.add(kind)
             ctx.violation("persistent_entropy differs from %s: code=%r model=%r definition=%r"
-                          % ("the definition" if bad else "the model (definition agrees with code)", code, ans, spec),
-                          {"dgms": dgms, "keep_inf": keep, "val_inf": vinf, "normalize": norm},
-                          found_input=bad, correspondence="ent")
-            if len(ctx.violations) > 5:
+                          % ("the definition" if verdict == "fail" else
+                             "the model only where the statement leaves the behaviour open (%s)" % free if verdict == "corr" else
+                             "the model (definition agrees with code)", code, ans, spec),
+                          {"dgms": dgms, "keep_inf": keep, "val_inf": vinf, "normalize": norm, "single": single},
+                          found_input=verdict == "fail", correspondence="ent")
+            if claimed(ctx) > 5:
                 return
     ctx.extra["anchored_statement_coverage"] = cov.summary()
     ctx.extra["core_theorems"] = CORE_THEOREMS
     representations(ctx)
-    if len(ctx.violations) > 5:
+    if claimed(ctx) > 5:
         return
     shared_arrays(ctx)
-    if len(ctx.violations) > 5:
+    if claimed(ctx) > 5:
         return
     laws(ctx)
 
@@ -150,53 +167,94 @@ def eval_shared(dgms, calls, single):
     for keep, vinf, norm in calls:
         with np.errstate(all="ignore"):
             code = canon(call(pe, arrs[0] if single else arrs, keep_inf=keep, val_inf=vinf, normalize=norm))
-        out.append((code, spec_value(dgms, keep, vinf, norm)))
+        spec, free = spec_value(dgms, keep, vinf, norm)
+        out.append((code, spec, judge(spec, free, code)))
     return out
 
 
 def shared_arrays(ctx):
     r = ctx.rng
+    corr_seen = False
     for _ in range(ctx.n(150, 2500)):
         dgms = [gen_barcode(ctx, inf_p=0.5) for _ in range(r.randint(1, 3))]
         single = len(dgms) == 1 and r.random() < 0.5
         calls = [(r.random() < 0.5, None if r.random() < 0.2 else r.choice([0.5, 7.0, 100.0, float(r.randint(1, 30))]), r.random() < 0.5)
                  for _ in range(r.randint(2, 4))]
         res = eval_shared(dgms, calls, single)
-        bad = [i for i, (code, spec) in enumerate(res) if spec_disagrees(spec, code)]
+        bad = [i for i, (code, spec, v) in enumerate(res) if v == "fail"]
+        open_ = [i for i, (code, spec, v) in enumerate(res) if v == "corr"]
         ctx.test("shared_array_histories", not bad)
-        if bad:
-            ctx.violation("persistent_entropy differs from the definition at call %d of a history of calls on the same arrays: code=%r definition=%r"
-                          % (bad[0], res[bad[0]][0], res[bad[0]][1]),
-                          {"shared": True, "dgms": dgms, "calls": [list(c) for c in calls], "single": single}, found_input=True)
-            return
+        if bad or (open_ and not corr_seen):
+            i = (bad or open_)[0]
+            corr_seen = corr_seen or not bad
+            ctx.violation("persistent_entropy differs from the definition at call %d of a history of calls on the same arrays%s: code=%r definition=%r"
+                          % (i, "" if bad else " (only where the statement leaves the behaviour open)", res[i][0], res[i][1]),
+                          {"shared": True, "dgms": dgms, "calls": [list(c) for c in calls], "single": single},
+                          found_input=bool(bad), **({} if bad else {"correspondence": "shared_arrays"}))
+            if bad:
+                return
 
 
 def spec_value(dgms, keep, vinf, norm):
-    """the mathematical definition, written independently of the code and of the model (math.fsum)"""
+    """the mathematical definition, written independently of the code and of the model (math.fsum).
+
+    Returns (ref, free).  `ref` is "err" or the list of entropies; where the statement is silent `ref` records what the
+    present code does and `free` says so:
+      free = None      every part of `ref` is fixed by the statement (the value for bars of positive length, the
+                       normalised value for n >= 2, the length of the vector, "a bar of non-positive length raises");
+      free = "call:.." the whole call is outside what the statement fixes: keep_inf=True without a value (the statement
+                       only speaks of replacing by "the supplied value"), or a bar born at +inf (a bar (inf, finite) may
+                       as well be dropped as an "infinite bar" as rejected; barcodes have finite births);
+      free = {i,..}    entries whose value the statement does not fix: an empty barcode (after removing infinite bars; 0/L
+                       with L = 0) and the normalised value of a single bar (0/log 1).  A non-positive bar anywhere still
+                       has to raise, and the vector still has one entry per diagram."""
+    inf_birth = any(math.isinf(b[0]) for d in dgms for b in d)
     if keep and vinf is None:
-        return "err:Exception"
-    out = []
-    for d in dgms:
+        return "err", "call:keep_inf without val_inf"
+    out, free = [], set()
+    for i, d in enumerate(dgms):
         if keep:
             d = [[vinf if math.isinf(x) else x for x in b] for b in d]
         else:
             d = [b for b in d if b[1] != math.inf]
         l = [b[1] - b[0] for b in d]
         if not all(x > 0 for x in l):
-            return "err:Exception"
+            return "err", ("call:bar born at infinity" if inf_birth else None)
         L = math.fsum(l)
         E = -math.fsum((x / L) * math.log(x / L) for x in l) if l else 0.0
         if norm:
             ln = math.log(len(l)) if len(l) > 0 else -math.inf
             E = E / ln if ln != 0 else math.nan
+        if len(l) == 0 or (norm and len(l) == 1):
+            free.add(i)
         out.append(E)
-    return out
+    return out, ("call:bar born at infinity" if inf_birth else (free or None))
 
 
-def spec_disagrees(spec, code):
-    if isinstance(spec, str) or isinstance(code, str):
-        return spec != code
-    return len(spec) != len(code) or not all(close(a, b, 1e-9) for a, b in zip(spec, code))
+def is_err(x):
+    """any exception satisfies "raises an error"; the class (canon gives "err:<Class>") is a correspondence matter"""
+    return isinstance(x, str) and x.startswith("err")
+
+
+def judge(spec, free, code):
+    """"ok": the code does what the reference does; "fail": the property as stated fails; "corr": the code differs from
+    the reference only where the statement leaves the behaviour open (reported with found_input=False)"""
+    if isinstance(free, str):                                    # the whole call is open
+        same = (is_err(spec) and is_err(code)) or (not is_err(spec) and not is_err(code) and len(spec) == len(code)
+                                                   and all(close(a, b, 1e-9) for a, b in zip(spec, code)))
+        return "ok" if same else "corr"
+    if is_err(spec):
+        return "ok" if is_err(code) else "fail"                  # a bar of non-positive length: any exception will do
+    if is_err(code):
+        return "corr" if free else "fail"                        # raising on an empty / one-bar barcode is not excluded
+    if len(spec) != len(code):
+        return "fail"                                            # one entry per diagram
+    free = free or set()
+    if any(not close(a, b, 1e-9) for i, (a, b) in enumerate(zip(spec, code)) if i not in free):
+        return "fail"
+    if any(not close(a, b, 1e-9) for i, (a, b) in enumerate(zip(spec, code)) if i in free):
+        return "corr"
+    return "ok"
 
 
 INT_DTYPES = ["uint8", "int8", "int32", "int64", "uint16", "float32"]
@@ -229,29 +287,36 @@ def rep_eval(bars, rep, norm):
         arg = np.array(bars, dtype=rep)
     with np.errstate(all="ignore"):
         code = canon(call(pe, arg, normalize=norm))
-    spec = spec_value([[[float(b[0]), float(b[1])] for b in bars]], False, None, norm)
-    return code, spec
+    spec, free = spec_value([[[float(b[0]), float(b[1])] for b in bars]], False, None, norm)
+    verdict = judge(spec, free, code)
+    if rep == "extra_column" and verdict == "fail":
+        verdict = "corr"                 # an (n,3) array is not a barcode: outside the quantifier, correspondence only
+    return code, spec, verdict
 
 
 def representations(ctx):
     """[T] the value must not depend on how the same numbers are stored (fix 53d45dc: `np.asarray(dgm, dtype=float)`):
     integer arrays of every width, unsigned ones with a bar born after dying (the subtraction must not wrap round),
-    nested lists, tuples, an array with an extra column.  Reference: the definition on the same numbers."""
+    nested lists, tuples, an array with an extra column (ill-formed: a difference there is reported without a claimed
+    failing input).  Reference: the definition on the same numbers."""
     r = ctx.rng
+    corr_seen = set()
     for k in range(ctx.n(240, 3000)):
         rep = (INT_DTYPES + ["lists", "tuples", "extra_column"])[k % (len(INT_DTYPES) + 3)]
         bad = r.random() < 0.35
         norm = r.random() < 0.3
         bars = gen_int_barcode(r, rep if rep in INT_DTYPES else "int64", bad)
-        code, spec = rep_eval(bars, rep, norm)
+        code, spec, verdict = rep_eval(bars, rep, norm)
         ctx.case({"op": "representation", "rep": rep, "bars": bars, "normalize": norm}, len(bars) >= 2, sample_every=53)
         ctx.count("representation:" + rep + (":born_after_dying" if bad else ""))
-        ok = not spec_disagrees(spec, code)
-        ctx.test("representation", ok)
-        if not ok:
-            ctx.violation("persistent_entropy of the %s representation differs from the definition on the same numbers: code=%r definition=%r"
-                          % (rep, code, spec), {"representation": rep, "bars": bars, "normalize": norm})
-            if len(ctx.violations) > 5:
+        ctx.test("representation", verdict != "fail")
+        if verdict == "fail" or (verdict == "corr" and not corr_seen):
+            corr_seen.add(rep)
+            ctx.violation("persistent_entropy of the %s representation differs from the definition on the same numbers%s: code=%r definition=%r"
+                          % (rep, "" if verdict == "fail" else " (outside what the statement fixes)", code, spec),
+                          {"representation": rep, "bars": bars, "normalize": norm},
+                          found_input=verdict == "fail", **({} if verdict == "fail" else {"correspondence": "representation"}))
+            if claimed(ctx) > 5:
                 return
 
 
@@ -260,33 +325,58 @@ LAWS = ["bounds", "perm", "translate", "scale", "equal_lengths", "normalised_uni
 
 
 def eval_laws(bars, t, lam, perm_seed, drop):
-    """the laws of the statement on the real code for one recorded barcode; returns {law: bool}"""
+    """the laws of the statement on the real code for one recorded barcode (all bars of positive length); returns
+    {law: bool}.  A call that raises on such a barcode fails the law it belongs to (value None)."""
     pe = common.pm("persistent_entropy").persistent_entropy
+
+    def ent(x, **kw):
+        """list of floats, or None if the call raised"""
+        with np.errstate(all="ignore"):
+            st, v, _ = call(pe, x, **kw)
+        return None if st == "err" else [float(y) for y in v]
+
+    def same(x, y, tol):
+        """|x - y| <= tol, absolute: an entropy is a sum of terms p log p of size <= 1/e, so rounding errors are absolute
+        (of order n ulp(1)) whatever the size of H itself; 1e-12 is about 4500 ulp(1)"""
+        return x is not None and y is not None and len(x) == 1 and len(y) == 1 and \
+            math.isfinite(x[0]) and math.isfinite(y[0]) and abs(x[0] - y[0]) <= tol
+
     a = arr(bars)
     n = len(bars)
     out = {}
-    H = float(pe(a)[0])
-    out["bounds"] = -1e-12 <= H <= math.log(n) + 1e-12
+    Hv = ent(a)
+    ok = Hv is not None and len(Hv) == 1 and math.isfinite(Hv[0])
+    H = Hv[0] if ok else math.nan
+    out["bounds"] = ok and -1e-12 <= H <= math.log(n) + 1e-12
     perm = a[np.random.RandomState(perm_seed).permutation(n)]
     span = float(np.max(np.abs(a))) + 1.0
-    out["perm"] = close(float(pe(perm)[0]), H, 1e-10)
-    # translation adds t to both ends: lengths change by rounding only (relative to the coordinates' size)
-    out["translate"] = close(float(pe(a + t)[0]), H, 1e-7 * max(1.0, (abs(t) + span) / float(np.min(a[:, 1] - a[:, 0]))))
-    out["scale"] = close(float(pe(a * lam)[0]), H, 1e-10)
+    out["perm"] = same(ent(perm), Hv, 1e-10)
+    # translation adds t to both ends: a length l_j changes by at most ulp(|t| + span), i.e. relatively by
+    # delta_j <= eps (|t| + span) / l_j, and dH/dl_j = -(log p_j + H)/L, so
+    #   |H(a + t) - H(a)| <= eps (|t| + span)/L * sum_j |log p_j + H| <= eps n (|t| + span)/L * (log(L/minlen) + log n).
+    # With n <= 14, eps n (.. + log n) <= 37 eps (1 + log(L/minlen)); 1e-12 ~ 4500 eps leaves a factor > 100 (measured:
+    # largest deviation / tolerance = 4e-4 over 16750 cases, tolerance below 1e-9 in 99% of them, never above 1e-2).
+    # It is never larger than 1e-12 (|t| + span)/minlen, the cruder bound through the shortest bar.
+    l = a[:, 1] - a[:, 0]
+    L, minlen = float(np.sum(l)), float(np.min(l))
+    out["translate"] = same(ent(a + t), Hv, 1e-12 * (abs(t) + span) / L * (1.0 + math.log(L / minlen)) + 1e-12)
+    out["scale"] = same(ent(a * lam), Hv, 1e-10)
     eq = np.array([[float(i), float(i) + 2.5] for i in range(n)])
-    out["equal_lengths"] = close(float(pe(eq)[0]), math.log(n), 1e-12)
+    Heq = ent(eq)
+    out["equal_lengths"] = same(Heq, [math.log(n)], 1e-12)
     if n >= 2:
-        Hn = float(pe(a, normalize=True)[0])
-        out["normalised_unit"] = -1e-12 <= Hn <= 1 + 1e-12
+        Hn = ent(a, normalize=True)
+        out["normalised_unit"] = Hn is not None and len(Hn) == 1 and -1e-12 <= Hn[0] <= 1 + 1e-12
     k = perm_seed % (n + 1)                    # the infinite bar goes anywhere in the diagram, not only to the end
     withinf = np.vstack([a[:k], [[0.0, np.inf]], a[k:]])
     subst = np.vstack([a[:k], [[0.0, 9.0]], a[k:]])
-    out["inf_handling"] = close(float(pe(withinf)[0]), H, 0.0) and \
-        close(float(pe(withinf, keep_inf=True, val_inf=9.0)[0]), float(pe(subst)[0]), 0.0)
-    both = pe([a, eq])
-    out["list_is_map"] = close(float(both[0]), H, 0.0) and close(float(both[1]), float(pe(eq)[0]), 0.0) and len(both) == 2
+    # "dropped" / "replaced by the supplied value" / "vector of individual entropies": equal up to rounding (a masked or
+    # padded batch evaluation may sum in another order), not bit for bit
+    out["inf_handling"] = same(ent(withinf), Hv, 1e-12) and same(ent(withinf, keep_inf=True, val_inf=9.0), ent(subst), 1e-12)
+    both = ent([a, eq])
+    out["list_is_map"] = both is not None and len(both) == 2 and same(both[:1], Hv, 1e-12) and same(both[1:], Heq, 1e-12)
     bad = np.vstack([a[:k], [[2.0, 2.0 - drop]], a[k:]])
-    out["nonpositive_raises"] = call(pe, bad)[0] == "err"
+    out["nonpositive_raises"] = ent(bad) is None           # any exception
     return out
 
 
@@ -307,26 +397,30 @@ def laws(ctx):
         if not all(res.values()):
             ctx.violation("entropy law fails on the real code (%s)" % " ".join("%s=%s" % kv for kv in res.items()),
                           {"bars": bars, "t": t, "lam": lam, "perm_seed": perm_seed, "drop": drop}, law=True)
-            if len(ctx.violations) > 5:
+            if claimed(ctx) > 5:
                 return
 
 
 def replay(ctx, rep):
+    """True iff the property as stated holds for the recorded case on this tree (a difference in behaviour the statement
+    leaves open - verdict "corr" - is not a failure)"""
     c = rep["case"]
     if c.get("shared"):
         res = eval_shared(c["dgms"], [tuple(x) for x in c["calls"]], c["single"])
-        for i, (code, spec) in enumerate(res):
-            print("call", i, c["calls"][i], "code:", code, "definition:", spec)
-        return not any(spec_disagrees(spec, code) for code, spec in res)
+        for i, (code, spec, v) in enumerate(res):
+            print("call", i, c["calls"][i], "code:", code, "definition:", spec, "verdict:", v)
+        return not any(v == "fail" for _, _, v in res)
     if "dgms" in c:
-        code = canon(run_code(c["dgms"], c["keep_inf"], c["val_inf"], c["normalize"]))
-        spec = spec_value(c["dgms"], c["keep_inf"], c["val_inf"], c["normalize"])
-        print("code:", code, "\ndefinition:", spec)
-        return not spec_disagrees(spec, code)
+        # the recorded call style: a lone array (single) or a list of arrays
+        code = canon(run_code(c["dgms"], c["keep_inf"], c["val_inf"], c["normalize"], bool(c.get("single", False))))
+        spec, free = spec_value(c["dgms"], c["keep_inf"], c["val_inf"], c["normalize"])
+        v = judge(spec, free, code)
+        print("code:", code, "\ndefinition:", spec, "\nleft open by the statement:", free, "\nverdict:", v)
+        return v != "fail"
     if "representation" in c:
-        code, spec = rep_eval(c["bars"], c["representation"], c["normalize"])
-        print("representation:", c["representation"], "bars:", c["bars"], "\ncode:", code, "\ndefinition:", spec)
-        return not spec_disagrees(spec, code)
+        code, spec, v = rep_eval(c["bars"], c["representation"], c["normalize"])
+        print("representation:", c["representation"], "bars:", c["bars"], "\ncode:", code, "\ndefinition:", spec, "\nverdict:", v)
+        return v != "fail"
     if "bars" in c and "perm_seed" in c:
         res = eval_laws(c["bars"], c["t"], c["lam"], c["perm_seed"], c["drop"])
         print("laws on the recorded barcode:", res)
@@ -344,7 +438,12 @@ MANIFEST = {
             "same definitions at Float against the real function on generated barcodes (infinite deaths and births) and all flag "
             "combinations (1e-12); a representation stream (uint8/int8/int32/int64/uint16/float32 arrays, nested lists, tuples, an "
             "extra column, unsigned bars born after dying) compares the real function with the definition on the same numbers, and "
-            "the laws are also evaluated on the real code as tests.",
+            "the laws are also evaluated on the real code as tests. A failing input is claimed only for what the statement fixes: "
+            "the value for bars of positive length (normalised: n >= 2), one entry per diagram, and that a non-positive bar raises "
+            "(any exception). The exception class, keep_inf=True without val_inf, the value of an empty or one-bar normalised barcode, "
+            "bars born at +inf and arrays with an extra column are compared with the model / present behaviour as correspondence only "
+            "(no-failing-input-found). Law tolerances: 1e-12 absolute for inf handling and list-is-map, a derived rounding bound "
+            "1e-12 (|t|+span)/L (1+log(L/minlen)) for translation.",
     "note": "Trusted: Lean kernel + Mathlib, axioms propext/Classical.choice/Quot.sound; the correspondence harness; np.log/np.sum as "
             "Real.log/sum up to rounding. Theorems are exact-arithmetic; float rounding and the conversion of the input container "
             "to float64 are covered only by the [T] law and representation streams. -inf/NaN coordinates are outside the model.",
